@@ -345,7 +345,15 @@ int main(int argc, char* const* argv)
     }
 
     if (pipe_in || pipe_out) {
-        if (!ContinueScript(*env)) {
+        bool ok;
+        try {
+            ok = ContinueScript(*env);
+        } catch (const std::exception& ex) {
+            fprintf(stderr, "error: exception thrown: %s\n", ex.what());
+            print_dualstack();
+            return 1;
+        }
+        if (!ok) {
             fprintf(stderr, "error: %s\n", ScriptErrorString(*env->serror).c_str());
             print_dualstack();
             return 1;
